@@ -13,6 +13,7 @@ LEMMA_FILES = {
     "JSON-ELEM": ["json_elem_seq_step", "json_elem_vals_step"],
     "RB": ["rb_scalar", "rb_seq_step", "rb_list", "rb_absent", "rb_dget_step", "rb_map_step", "rb_dict"],
     "DICT-ITEM": ["dict_distinct_step", "dict_item_step", "dict_wf_suffix_step", "dict_haskey_step"],
+    "MEM-EX": ["mem_ex_step", "mem_ex_conv_step"],
     "RB-MEM": ["rb_mem_step"],
     "RB-DUP": ["rb_dup_step"],
 }
